@@ -22,16 +22,19 @@ META = dict(
          "of long ones) with the predicted result, database-callback count, DEL commands per second and cache "
          "contents, and each history is executed through sqlc.CachedConn on miniredis (single node and "
          "consistent-hash cluster with every placement class) with the cleaner's timing wheel driven tick by tick.",
-    note="Trusted: TLC, miniredis as Redis, the driver's tick barrier (a sentinel timer set right before each tick "
+    note="A disagreement of a sequential history is reported only if it shows again on immediate re-execution "
+         "(go-redis re-sends commands whose reply timed out). Trusted: TLC, miniredis as Redis, the driver's tick barrier (a sentinel timer set right before each tick "
          "fires last in its slot; then the cleaner's task runner is idle and the wheel has accepted a no-op). "
          "Bounds: <= 2 ids, 2 index values, 2 payloads, 1-3 Redis nodes (placement classes split/mixed/three-way), "
          "cache node over Redis of type node and of type cluster (per-key removals failing individually), "
+         "primary keys that are small integers, integers above 2^53 and strings (sequential histories and concurrent "
+         "QueryRowIndex readers, decoded into `any`), "
          "histories of 3-6 operations exhaustively (each <= 60 000 histories) + seeded simulated histories of 14-40 "
          "operations, <= 4 outages, ladder rungs up to 60 s exhaustively and up to 3600 s in the thorough simulation. "
          "Not covered: operations racing with outages or with writes (only sequential histories + concurrent readers of "
          "uncached keys between writes), a real multi-shard Redis Cluster (the ClusterType branch of node.DelCtx is driven "
          "through go-redis' ClusterClient against one miniredis that owns all slots), hit/miss statistics "
-         "(stat.go), invalid JSON in the cache (processCache), QueryRowIndex under concurrency, TakeWithExpire callers "
+         "(stat.go), invalid JSON in the cache (processCache), TakeWithExpire callers "
          "other than QueryRowIndex. CacheAsideImpl (step-wise doTake model) of DESIGN.md was not built: the "
          "concurrent clause is decided by validating recorded traces of the real code against CacheAsideTrace.tla.",
     technique="TLA+ spec (CacheAside) + TLC-generated histories replayed on sqlc.CachedConn/miniredis; "
@@ -234,13 +237,16 @@ def run_driver(ctx, binp, run, env, timeout=600, gomaxprocs=None):
     return p.returncode, p.stdout + p.stderr
 
 
+ALLK = ["p:1", "p:2", "i:s", "q:s", "i:b", "q:b", "i:t", "q:t"]
+
+
 def concurrent(ctx, binp):
     """record traces of concurrent readers on the real code and validate them with TLC"""
     import re
     race = not ctx.quick
     if race:
         binp = ctx.go_build(PKG, OVERLAY, race=True, name="c06race")
-    rounds, readers = (40, 16) if ctx.quick else (150, 16)
+    rounds, readers = (30, 12) if ctx.quick else (120, 12)
     for gmp in ([None] if ctx.quick else [2, 4, 16]):
         name = "conc%s" % (gmp or "")
         path = os.path.join(ctx.build, name + ".ndjson")
@@ -258,7 +264,9 @@ def concurrent(ctx, binp):
         infra = [x for x in evs if x.get("e") == "infra"]
         if infra or not evs:
             raise core.Infra("concurrent driver: %s" % (infra[:2] or "empty trace"))
-        K = dict(TKeys='{"p:1", "p:2"}', Readers="1..%d" % (2 * readers), TE=30, TNF=10)
+        K = dict(TKeys='{"p:1", "p:2", "i:s", "q:s", "i:b", "q:b", "i:t", "q:t"}',
+                 Pairs='{<<"i:s", "q:s">>, <<"i:b", "q:b">>, <<"i:t", "q:t">>}',
+                 Readers="1..%d" % (5 * readers), TE=30, TNF=10)
         cfg = core.render_cfg(spec="TSpec", constants=K, invariants=["AtMostOneInFlight"], check_deadlock=True)
         r = ctx.tlc("CacheAsideTrace", cfg, constants=K, files={"c06trace.ndjson": path}, name=name, workers=1,
                     allow_violation=True, want_json=False, timeout=900, heap="3g")
@@ -279,7 +287,10 @@ def concurrent(ctx, binp):
                 key = "C06:concurrent:two-db-queries-in-flight"
             else:
                 key = {"ret": "C06:concurrent:wrong-result", "dbb": "C06:concurrent:db-reached-again",
+                       "keys": "C06:concurrent:unexpected-cache-content",
                        "ttl": "C06:concurrent:ttl-out-of-range"}.get(ev.get("e"), "C06:concurrent:trace-rejected")
+                if ev.get("e") in ("dbb", "dbe", "ttl") and ev.get("k") not in ALLK:
+                    key = "C06:concurrent:query-or-entry-for-unknown-key"
             lo = max(0, idx - 60)
             ctx.disagree(key, "trace %s (%d events) %s at event %d: %s" % (name, len(evs), r.violated, idx + 1, json.dumps(ev)),
                          case=json.dumps(evs[lo:idx + 1]), step=idx + 1, source="trace")
@@ -309,6 +320,11 @@ def run(ctx):
         run_plan(ctx, binp, ladder, p)
     if not only or "conc" in only:
         concurrent(ctx, binp)
+    unconf = sum(v for k, v in ctx.counters.items() if k.endswith(".unconfirmed_disagreement"))
+    if unconf:
+        ctx.notes["unconfirmed_disagreements"] = unconf   # did not show again on immediate re-execution (transport noise)
+        if unconf > 20:
+            raise core.Infra("%d disagreements did not reproduce on re-execution: the environment is too noisy" % unconf)
     if not only and not ctx.disagreements:
         vacuity(ctx)
     ctx.assumptions += [
